@@ -286,14 +286,28 @@ where
             }
         }
     }
+    let mut all_specs: Vec<(usize, Option<usize>, Option<usize>)> = Vec::new();
+    for fi in 0..FLAGS.len() {
+        for &w in &widths {
+            for &p in &precs {
+                all_specs.push((fi, w, p));
+            }
+        }
+    }
+    all_specs.extend(fmtgrid::long_specs(thorough()));
     for a in amounts() {
         // memoises the amount-text verdict per (text, precision) - for THIS amount only
         let mut cache = HashMap::new();
         rep.inc("states");
         let q = Q::new(a, u);
-        for (fi, flags) in FLAGS.iter().enumerate() {
-            for &w in &widths {
-                for &p in &precs {
+        // the grid, then the specifications far beyond it (one flag combination each)
+        for &(fi, w, p) in all_specs.iter() {
+            let flags = &FLAGS[fi];
+            {
+                {
+                    if w.map_or(false, |w| w > 40) || p.map_or(false, |p| p > 20) {
+                        rep.inc("long_specs");
+                    }
                     rep.inc("transitions");
                     let spec = Spec { flags: *flags, width: w, prec: p };
                     let mk = || case(key, "format!(value)", json!({"value": show_q(a, b.vname(iu)), "symbol": sym, "spec": spec.show()}));
